@@ -394,11 +394,56 @@ def private_helpers(prog, ref, m, tree_self, tree_other, other_of):
             fs, fo = top_functions(s_self), top_functions(s_other)
             for a in node.names:
                 f = fs.get(a.name)
-                if f is not None and a.name not in fo and not f.decorator_list and not (free_names(f) - BUILTINS - {f.name}):
-                    g = copy.deepcopy(f)
-                    g.name = a.asname or a.name
-                    out.setdefault(g.name, (g, True))
+                if f is not None and a.name not in fo and not f.decorator_list:
+                    free = free_names(f) - BUILTINS - {f.name}
+                    # every module-level name the helper uses must denote the same thing where it is inlined
+                    if all(_same_binding(prog, src, s_self, m, tree_self, x, tree_other) for x in free):
+                        g = copy.deepcopy(f)
+                        g.name = a.asname or a.name
+                        out.setdefault(g.name, (g, True))
     return out
+
+
+def _binding(prog, m, tree, name):
+    """what a module-level name of module m denotes: ('def', module, name) | ('from', module, name) | ('import', dotted) | None"""
+    found = None
+    for node in tree.body:
+        if isinstance(node, (ast.FunctionDef, ast.AsyncFunctionDef, ast.ClassDef)) and node.name == name:
+            found = ("def", m.name, name)
+        elif isinstance(node, ast.ImportFrom):
+            for a in node.names:
+                if (a.asname or a.name) == name:
+                    found = ("from", import_base(m, node), a.name)
+        elif isinstance(node, ast.Import):
+            for a in node.names:
+                if (a.asname or a.name).split(".")[0] == name:
+                    found = ("import", a.name if a.asname is None else a.name + " as " + a.asname)
+        elif isinstance(node, ast.Assign):
+            for t in node.targets:
+                if isinstance(t, ast.Name) and t.id == name:
+                    found = ("value", m.name, name)
+    return found
+
+
+def _same_binding(prog, src, src_tree, m, m_tree, name, m_other_tree=None):
+    a, b = _binding(prog, src, src_tree, name), _binding(prog, m, m_tree, name)
+    if b is None and m_other_tree is not None:
+        b = _binding(prog, m, m_other_tree, name)          # an import that became unused when the code moved out, and was dropped
+    if a is None or b is None:
+        return False
+    if a == b and a[0] != "value":
+        return True
+
+    def origin(x, depth=0):
+        # follow `from M import n` chains inside the package to the defining module
+        while x[0] == "from" and x[1] in prog.modules and depth < 4:
+            y = _binding(prog, prog.modules[x[1]], prog.modules[x[1]].tree, x[2])
+            if y is None:
+                break
+            x, depth = y, depth + 1
+        return x
+    oa, ob = origin(a), origin(b)
+    return oa == ob and oa[0] in ("def", "from", "import")
 
 
 def resolve_class(prog, m, tree, name, other_of):
